@@ -89,7 +89,7 @@ def handle : List String → Option String
       let restart := decide (s1.basis.length > c.maxSize)
       -- specification checks of the recorded kernel outputs
       let spanok : String :=
-        if m2 = 0 then "1 1 1" else
+        if m2 = 0 then "1 1 1 1" else
         let ts := corrf s0.pairs
         let leftSame := (B2.take m).map (fun v => v.toList.map Float.toBits) == B.map (fun v => v.toList.map Float.toBits)
         let lenOk := B2.length == m + co
@@ -104,7 +104,11 @@ def handle : List String → Option String
         let dmin := (s0.pairs.take co).foldl (fun m p => dg.foldl (fun m d => if Float.abs (p.value - d) < m then Float.abs (p.value - d) else m) m) 1e300
         let floor := 1e-12 * (1.0 + amax) / dmin
         let inSpan := !(orthoDev B2 ≤ 1e-8) || !finite || ts.all (fun t => residAgainst B2 t ≤ 1e-8 * tmax + floor)
-        s!"{if leftSame then 1 else 0} {if lenOk then 1 else 0} {if inSpan then 1 else 0}"
+        -- the appended block is the leading part of a Householder Q factor: its columns are orthonormal AMONG THEMSELVES for every input
+        -- block (rank deficient or not, whatever the old columns are): unit norms and |q_i . q_j| <= 1e-8.  A zero / non-unit column
+        -- (what a Gram-Schmidt sweep leaves for linearly dependent corrections) is not a Q factor.
+        let blockOk := orthoDev (B2.drop m) ≤ 1e-8
+        s!"{if leftSame then 1 else 0} {if lenOk then 1 else 0} {if inSpan then 1 else 0} {if blockOk then 1 else 0}"
       let sU := updateOperatorBasisProduct K (if restart then Dav.restart K c.initSize s1 else s1)
       let G := smallMatrix K sU
       let gmax := G.foldl (fun m col => col.foldl (fun m x => if Float.abs x > m then Float.abs x else m) m) 0.0
